@@ -198,4 +198,13 @@ PROPS["C14"] = {
     "assumptions": TRUSTED + ["dynamic layout: the autogenerated dynamic-parameter assertions are not part of the statement (don't-care once the listed conjuncts hold)", "an address listed twice with different values is left to the AIR's memory argument: either value is accepted by the hash oracle"],
 }
 
+PROPS["C19"] = {
+    "level": "exploration",
+    "technique": "runtime differential monitor: the repository's proof parser + CLI conversion vs an independent Stone-file loader (plain string splitting, name-based matching) on the shipped files and on ~200 classified edits of each; panic hook around the pipeline",
+    "rule": "files: quick = 3 shipped files by seed + the dynamic-layout file, thorough = all 25; edits per file: proof parameters at boundary values (n_queries, proof_of_work_bits incl. 256/286, last_layer_degree_bound, log_n_cosets, n_friendly, step lists), public-input scalars, every segment renamed/rebound/removed and new segments added, public-memory values (bad, empty, upper-case hex, p), addresses, pages, removal, reordering, dynamic parameters changed/removed/renamed/added, annotation lines per class removed / swapped / duplicated / altered / with bad hex / injected, list elements removed / swapped, nonce 0 / 2^64-1 / 2^64 / 128-bit; each edit is marked well-formed (pipeline output must equal the loader's), malformed or not representable (pipeline must return an error) or unknown (recorded); a panic is a violation for every mark",
+    "legs": [full("parser", "parser", q=FULL_ONE, t=FULL_ONE)],
+    "required_counters": ["shipped_files_equal", "wellformed_equal", "malformed_rejected"],
+    "assumptions": TRUSTED[:1] + ["cli/src/main.rs itself cannot be built offline (clap); its three-call pipeline parse -> transform_to is what is executed", "the loader's reading of the Stone file format (segment order, double-underscore parameter names) was validated on the 25 shipped files"],
+}
+
 NOT_APPLICABLE = {}
